@@ -73,6 +73,9 @@ Example C34_trace_ok_rejects :
             (Push 1 4, ROk); (Peek, RTx 2 5); (Pending, RList [(1, 4); (2, 5)]); (Len, RNum 2)] = true.
 Proof. vm_compute. repeat split; reflexivity. Qed.
 
+(* The generic theorem models a method as ONE critical section around its whole body (acquire,
+   body, release); that the source has this shape is the obligation C34_one_critical_section above
+   (shapes read by the translator on every run), cross-checked per method by the harness. *)
 (* ---- concurrency: with the lock modes read from the source, every complete interleaved
    history of any number of threads (method bodies interleaved statement by statement) is
    linearizable w.r.t. the queue specification, and the final heap represents the queue reached
